@@ -22,10 +22,9 @@
        origin_server_ts under the version's rule, signed the redacted event) and whether the bulk
        call itself fails (verr);
      - for the pseudo-ID version, self_valid : name -> bool (JSONVerifierSelf's answer).
-   Redaction: only whether RedactEventJSON fails matters for the verdict (redact_fails below:
-   json.Unmarshal into map[string]interface{} refuses a content that is neither an object nor
-   null); the redacted bytes themselves are C05's model (Event/Redact.v). *)
-From Verif Require Import Lib.Bytes Json.Ast Gen.GenVersions.
+   Redaction (the message of every request, and the error when it fails) is C05's model of
+   redactevent.go: Event/Redact.v, redact ver j. *)
+From Verif Require Import Lib.Bytes Json.Ast Gen.GenVersions Event.Redact.
 Open Scope N_scope.
 
 (* ---------- room-version table (generated) ---------- *)
@@ -195,15 +194,6 @@ Definition authorised_via (ver : bytes) (e : event) : option bytes :=
 (* ---------- the result of the caller's UserIDForSender ---------- *)
 Inductive lookup := LErr | LNil | LDom (d : bytes).
 
-(* ---------- RedactEventJSON failure ---------- *)
-Definition redact_fails (e : event) : bool :=
-  match e_content e with
-  | None => false
-  | Some JNull => false
-  | Some (JObj _) => false
-  | Some _ => true
-  end.
-
 (* ---------- needed servers, in the order the code adds them (duplicates kept; the code's map
    makes it a set, see needed_set) ; None = the function returns an error first ---------- *)
 Definition needed_sender (ver : bytes) (lk : lookup) (e : event) : option (list bytes) :=
@@ -253,29 +243,39 @@ Definition required_servers (ver : bytes) (lk : lookup) (e : event) : option (li
     end
   else None.
 
-(* one verification request *)
-Record request := { r_server : bytes; r_ts : N; r_strict : bool }.
+(* one verification request: VerifyJSONRequest{ServerName, AtTS, Message, ValidityCheckingFunc} *)
+Record request := { r_server : bytes; r_ts : N; r_strict : bool; r_msg : json }.
 
-Definition requests_of (ver : bytes) (e : event) (servers : list bytes) : list request :=
-  map (fun s => {| r_server := s; r_ts := e_ts e; r_strict := strict_validity ver |}) servers.
+Definition requests_of (ver : bytes) (e : event) (msg : json) (servers : list bytes) : list request :=
+  map (fun s => {| r_server := s; r_ts := e_ts e; r_strict := strict_validity ver; r_msg := msg |}) servers.
 
-(* the requests handed to the verifier: None = error before the verifier is consulted *)
-Definition verify_requests (ver : bytes) (lk : lookup) (e : event) : option (list request) :=
-  match required_servers ver lk e with
-  | Some l => if redact_fails e then None else Some (requests_of ver e l)
+(* the requests handed to the verifier for the event whose JSON is j;
+   None = an error is returned before the verifier is consulted (or j is not an event) *)
+Definition verify_requests (ver : bytes) (lk : lookup) (j : json) : option (list request) :=
+  match read_event j with
   | None => None
+  | Some e =>
+      match required_servers ver lk e with
+      | Some l => match redact ver j with
+                  | Some msg => Some (requests_of ver e msg l)
+                  | None => None
+                  end
+      | None => None
+      end
   end.
 
-(* VerifyEventSignatures for every version but the pseudo-ID one: true = nil error *)
-Definition verify_event (ver : bytes) (lk : lookup) (e : event) (valid : bytes -> bool) (verr : bool) : bool :=
-  match verify_requests ver lk e with
-  | Some rs => negb verr && forallb (fun r => valid (r_server r)) rs
+(* VerifyEventSignatures for every version but the pseudo-ID one: true = nil error.
+   verifier r = the caller's JSONVerifier finds a valid signature for request r;
+   verr = the bulk call itself returns an error *)
+Definition verify_event (ver : bytes) (lk : lookup) (j : json) (verifier : request -> bool) (verr : bool) : bool :=
+  match verify_requests ver lk j with
+  | Some rs => negb verr && forallb verifier rs
   | None => false
   end.
 
 (* VerifyAllEventSignatures: one verdict per event, same order *)
-Definition verify_all (ver : bytes) (evs : list (lookup * event)) (valid : bytes -> bool) (verr : bool) : list bool :=
-  map (fun le => verify_event ver (fst le) (snd le) valid verr) evs.
+Definition verify_all (ver : bytes) (evs : list (lookup * json)) (verifier : request -> bool) (verr : bool) : list bool :=
+  map (fun le => verify_event ver (fst le) (snd le) verifier verr) evs.
 
 (* ---------- the set view (Go map keys), sorted for the observable ---------- *)
 Fixpoint insert_sorted (x : bytes) (l : list bytes) : list bytes :=
@@ -343,8 +343,10 @@ Definition needed_member_pseudoid (ver : bytes) (e : event) : option (list bytes
 (* the two verifier consultations of the pseudo-ID branch:
    mapping servers asked through the caller's verifier (joins only), needed names through the
    self-verifier.  Result: (verdict, mapping servers asked or None, names asked or None). *)
-Definition pseudoid_trace (ver : bytes) (e : event) (valid self_valid : bytes -> bool) (verr : bool)
+Definition pseudoid_trace (ver : bytes) (j : json) (valid self_valid : bytes -> bool) (verr : bool)
   : bool * option (list bytes) * option (list bytes) :=
+  match read_event j with None => (false, None, None) | Some e =>
+  let redact_fails := match redact ver j with Some _ => false | None => true end in
   if negb (ver_known ver) then (false, None, None) else
   if bytes_eqb (e_type e) m_room_member then
     match membership_of e with
@@ -368,15 +370,16 @@ Definition pseudoid_trace (ver : bytes) (e : event) (valid self_valid : bytes ->
             match needed_member_pseudoid ver e with
             | None => (false, asked, None)
             | Some more =>
-                if redact_fails e then (false, asked, None) else
+                if redact_fails then (false, asked, None) else
                 let names := e_sender e :: more in
                 (forallb self_valid names, asked, Some names)
             end
         end
     end
   else
-    if redact_fails e then (false, None, None)
-    else (self_valid (e_sender e), None, Some [e_sender e]).
+    if redact_fails then (false, None, None)
+    else (self_valid (e_sender e), None, Some [e_sender e])
+  end.
 
-Definition verify_event_pseudoid (ver : bytes) (e : event) (valid self_valid : bytes -> bool) (verr : bool) : bool :=
-  fst (fst (pseudoid_trace ver e valid self_valid verr)).
+Definition verify_event_pseudoid (ver : bytes) (j : json) (valid self_valid : bytes -> bool) (verr : bool) : bool :=
+  fst (fst (pseudoid_trace ver j valid self_valid verr)).
